@@ -6,6 +6,8 @@ import Rpki.Model.Sha
 import Rpki.Model.Manifest
 import Rpki.Model.Roa
 import Rpki.Gen.Consts
+import Rpki.Model.CmsDer
+import Driver.CertShow
 namespace Driver.C02
 open Driver Rpki.Chain Rpki.Cert Rpki.SigObj
 
@@ -127,6 +129,12 @@ def mustAccept (ty : String) (now : Int) (crlOk : Bool) (o : ObjRaw) (issuer : R
 
 def handle (toks : List String) (impl : String) : Verdict :=
   match toks with
+  | ["cmsd", ty, h] =>
+    match hexB h with
+    | none => badOp "hex"
+    | some b =>
+      { model := some (Driver.CertShow.cmsLine ty b),
+        oracle := if impl = "panic" then some "SignedObject / Roa / Aspa / Manifest ::decode or an accessor panicked" else none }
   | ty0 :: now :: crl :: objf :: rest =>
     -- `sor` / `roar`: the same objects decoded in relaxed (BER) mode, the content possibly in several segments
     let ty := if ty0 = "sor" then "so" else if ty0 = "roar" then "roa" else ty0
@@ -139,7 +147,22 @@ def handle (toks : List String) (impl : String) : Verdict :=
         | none => badOp "objfacts"
         | some o =>
           let crlOk := crl = "1"
-          let m := modelLine ty now crlOk o issuer eeRaw.dec
+          -- strict (DER) operations: the model reads the whole object from its octets (`CmsDer.decodeSigObj`:
+          -- envelope, embedded certificate, signed attributes); what stays an input are the two verdicts of the
+          -- signature primitive and the octets the signature was made over
+          let objHex := ((rest.dropWhile (· ≠ "|")).drop 1).getLast?
+          let strictOp := ty0 ≠ "sor" ∧ ty0 ≠ "roar"
+          let m :=
+            if strictOp then
+              match objHex.bind hexB with
+              | none => "bad-op"
+              | some ob =>
+                match Rpki.CmsDer.decodeSigObj ob with
+                | none => "err"
+                | some d =>
+                  let ob' := Rpki.CmsDer.toObj d o.obj.sigKeyOk o.obj.sigInput eeRaw.facts.sigOk
+                  modelLine ty now crlOk { o with dec := true, obj := ob' } issuer true
+            else modelLine ty now crlOk o issuer eeRaw.dec
           let orc := oracle ty now crlOk o raws impl
           let orc := match orc with
             | some w => some w
